@@ -13,6 +13,7 @@ Definition ioid_differs (head_content : str) (e : ientry) : bool :=
   | IBlob _ c => negb (str_eqb head_content c)
   | ILink t => negb (str_eqb head_content t)
   | ICommit _ => true
+  | IIntent => true
   end.
 
 (* every index entry was looked up in the HEAD map, which holds regular files only;
@@ -21,7 +22,7 @@ Definition get_staged_files_v0 (head : option (list (name * gentry))) (idx : ind
   let hm := build_head_path_map head in
   filter_map (fun pe =>
       match assoc_path (fst pe) hm with
-      | Some c => if ioid_differs c (snd pe) then Some (fst pe) else None
+      | Some hf => if ioid_differs (snd hf) (snd pe) then Some (fst pe) else None
       | None => Some (fst pe)
       end) idx.
 
